@@ -304,17 +304,14 @@ theorem init_exec (e : Env F) (s : State F) (hs : s.ctl = .run) (hi : SrchIn e s
     ilsimp [searchC, initOpen, sC, sB, initA, hbar]
     refine ⟨_, rfl, ⟨rfl, SrchConst.of_in hi ?_ ?_ ?_ ?_ ?_ ?_ ?_ ?_ ?_ ?_ ?_,
       SrchAbs.init hi.ops hi.start_in ?_ ?_ ?_ ?_ ?_ ?_, ?_⟩, ?_⟩
-    all_goals first
-      | (simp [initA, setS_apply, hcf, sumI]; done)
-      | skip
+    all_goals simp [initA, setS_apply, hcf, sumI]
   · have hct : e.cross e.start = true := by rw [hcr]; simp [hbar]
     have hlt' : cidx e.w e.start < (List.replicate (e.h * e.w) (Fl.lit 0 1 : F)).length := by simpa using hlt
     ilsimp [searchC, initOpen, sC, sB, initA, hbar, r1, r2, ho, hi.sy, hi.sx, hi.gy, hi.gx,
       getD_set_same _ _ _ _ hlt', getD_replicate_lt _ _ _ _ hlt]
     refine ⟨_, rfl, ⟨rfl, SrchConst.of_in hi ?_ ?_ ?_ ?_ ?_ ?_ ?_ ?_ ?_ ?_ ?_,
       SrchAbs.init hi.ops hi.start_in ?_ ?_ ?_ ?_ ?_ ?_, ?_⟩, ?_⟩
-    all_goals first
-      | (simp [initA, setS_apply, hct, sumI, flDist, sqDist, getD_replicate_lt _ _ _ _ hlt]; done)
+    all_goals simp [initA, setS_apply, hct, sumI, flDist, sqDist, getD_replicate_lt _ _ _ _ hlt]
 
 theorem walk_length_le {par : Cell → Option Cell} {s : Cell} :
     ∀ {n : Nat} {c : Cell} {l : List Cell}, walk par s n c = some l → l.length ≤ n
